@@ -250,6 +250,49 @@ func ruleToken(c *Ctx) {
 			dn = append(dn, fname(d))
 		}
 		l.stat("R-TOKEN").Extra[b.Name+"_decoders"] = dn
+		// the pointer is split as given: strings.Split(path, "/") applied to the path parameter
+		// itself, and exactly the element in front of the first "/" is dropped (a trimmed or
+		// cleaned path loses leading empty reference tokens: "//a" is the member "a" of the
+		// member with the empty name, not the member "a")
+		for _, fn := range b.srcFuncs(b.Lib) {
+			n := 0
+			allInstrs(fn, func(i ssa.Instruction) {
+				call, ok := i.(*ssa.Call)
+				if !ok {
+					return
+				}
+				f := call.Call.StaticCallee()
+				if f == nil || stdName(f) != "strings.Split" {
+					return
+				}
+				if sep, ok := strConst(call.Call.Args[1]); !ok || sep != "/" {
+					return
+				}
+				n++
+				key := fmt.Sprintf("%s: split #%d is applied to the pointer as given and drops exactly the leading element", b.canonFname(fn), n)
+				bad := ""
+				if _, isParam := call.Call.Args[0].(*ssa.Parameter); !isParam {
+					bad = "the text that is split is " + describeValue(call.Call.Args[0]) + ", not the pointer parameter itself: leading or repeated separators are reference tokens (empty member names) and must survive"
+				}
+				for _, r := range *call.Referrers() {
+					switch x := r.(type) {
+					case *ssa.Slice:
+						if lo, ok := intConst(x.Low); x.Low == nil || !ok || lo != 1 {
+							bad = "the token list is taken from the split result at " + b.posOf(x) + " without dropping exactly the first element"
+						}
+					case *ssa.IndexAddr:
+						if k, ok := intConst(x.Index); ok && k == 0 {
+							// reading element 0 (the text in front of the first separator) is fine only for a check
+						}
+					}
+				}
+				if bad != "" {
+					l.add("R-TOKEN", b.Name, key, b.posOf(call), Violated, bad, true)
+				} else {
+					l.add("R-TOKEN", b.Name, key, b.posOf(call), Discharged, "strings.Split(<path parameter>, \"/\"); every slice of the result starts at 1", true)
+				}
+			})
+		}
 		for _, fn := range b.srcFuncs(b.Lib) {
 			if isContainerImplMethod(fn) {
 				continue // forwarding between container methods passes an already-decoded key
